@@ -1,5 +1,173 @@
+/-
+C09 — a query or fit charges exactly its ε, once, to the right accountant.
+
+The model is `DPL/Model/Charged.lean` (resolve / check / run / spend, `_check_cells`, `fit` with sub-queries on
+throw-away accountants) composed with the accountant machine of `DPL/Model/Accountant.lean`; `Drivers/Tools.lean`
+runs these very definitions on IEEE doubles against the real tools and estimators.
+
+★ = holds for ANY numeric carrier with arbitrary arithmetic and comparisons — hence also for the doubles the code
+computes with: these are facts about control flow (check first, spend last, nothing in between touches an
+accountant).  The multi-cell theorem needs one arithmetic fact — a history that fits the ceiling still fits when its
+last spend is dropped — which is a hypothesis of the ★ version and is proved over ℝ (monotonicity of `total`, C05).
+-/
 import DPL.Model.Charged
 import DPL.Model.PlanTools
+import DPL.Proofs.Charged
+import Mathlib.Tactic.FieldSimp
+import Mathlib.Tactic.NormNum
+
 namespace DPL.C09
-theorem stub : True := trivial
+open DPL DPL.Charged
+
+section generic
+variable {α : Type} [OfNat α 0] [OfNat α 1] [OfNat α 2] [Add α] [Sub α] [Mul α] [Div α] [Neg α]
+  [LT α] [LE α] [DecidableLT α] [DecidableLE α] [NatCast α] [Transc α] [HasInf α]
+variable {ρ : Type}
+
+/-- ★ scalar_charge_once: for every scalar query (any body: every scalar-output tool plan, the scalar quantile
+including its NaN path, a histogram) and every state of the world: if the resolved accountant's check passes then
+exactly one spend `(ε, 0)` is appended to it, no other accountant changes, the body's mechanisms ran and the
+release is produced; otherwise the call fails with the check's error, NO mechanism ran and no accountant changed. -/
+theorem scalar_charge_once (w : World α) (explicit : Option Nat) (ε : α) (b : Body ρ) (a : Acc α)
+    (hi : w.accs[resolve w explicit]? = some a) :
+    (a.check ε 0 = .ok () →
+        (scalarQ explicit ε b w).res = .ok b.release ∧
+        (scalarQ explicit ε b w).accs = w.accs.set (resolve w explicit) { a with spent := a.spent ++ [⟨ε, 0⟩] } ∧
+        (∀ j, j ≠ resolve w explicit → (scalarQ explicit ε b w).accs[j]? = w.accs[j]?) ∧
+        (scalarQ explicit ε b w).mechCalls = b.calls) ∧
+    (∀ x, a.check ε 0 = .error x → scalarQ explicit ε b w = ⟨.error x, w.accs, 0⟩) := by
+  constructor
+  · intro hc
+    rw [scalarQ_ok w explicit ε b a hi hc]
+    refine ⟨rfl, rfl, ?_, rfl⟩
+    intro j hj
+    exact List.getElem?_set_ne (Ne.symm hj)
+  · intro x hc
+    exact scalarQ_err w explicit ε b a x hi hc
+
+/-- ★ instance for a release plan run with forced mechanism outputs: the number of mechanism invocations is the
+length of the plan's trace -/
+theorem scalar_charge_once_plan {δ σ : Type} (p : Plan δ α σ) (D : δ) (outs : List α)
+    (w : World α) (explicit : Option Nat) (ε : α) (a : Acc α)
+    (hi : w.accs[resolve w explicit]? = some a) :
+    (a.check ε 0 = .ok () →
+        (scalarQ explicit ε (Body.ofPlan p D outs) w).res = .ok (p.run D outs).release ∧
+        (scalarQ explicit ε (Body.ofPlan p D outs) w).mechCalls = (p.run D outs).calls.length) ∧
+    (∀ x, a.check ε 0 = .error x →
+        (scalarQ explicit ε (Body.ofPlan p D outs) w).mechCalls = 0 ∧
+        (scalarQ explicit ε (Body.ofPlan p D outs) w).accs = w.accs) := by
+  have h := scalar_charge_once w explicit ε (Body.ofPlan p D outs) a hi
+  constructor
+  · intro hc; exact ⟨(h.1 hc).1, (h.1 hc).2.2.2⟩
+  · intro x hc; rw [h.2 x hc]; exact ⟨rfl, rfl⟩
+
+/-- ★ explicit_overrides_default: with an explicit accountant the default in force is irrelevant; without one the
+default is the accountant that is used -/
+theorem explicit_overrides_default (w : World α) (i d' : Nat) (ε : α) (b : Body ρ) :
+    scalarQ (some i) ε b { w with dflt := d' } = scalarQ (some i) ε b w ∧
+    scalarQ none ε b w = scalarQ (some w.dflt) ε b w := ⟨rfl, rfl⟩
+
+/-- ★ multi_cell_charge (any carrier, given that fitting histories are closed under dropping their last spend):
+`_wrap_axis` on `n ≥ 1` cells.  If `_check_cells` refuses, nothing ran and nothing changed.  If it accepts, NO
+per-cell check refuses: all `n` bodies run and exactly `n` spends of `ε/n` are appended to the resolved accountant. -/
+theorem multi_cell_charge_gen (w : World α) (explicit : Option Nat) (ε : α) (bodies : List (Body ρ)) (a : Acc α)
+    (hi : w.accs[resolve w explicit]? = some a)
+    (hmono : ∀ l sp, Fits a (l ++ [sp]) → Fits a l)
+    (hmin : ¬ (0 < ε / (bodies.length : α) ∧ ε / (bodies.length : α) < a.minEps)) :
+    (∀ x, checkCells a ε (ε / (bodies.length : α)) bodies.length = .error x →
+        wrapAxisQ explicit ε bodies w = ⟨.error x, w.accs, 0⟩) ∧
+    (checkCells a ε (ε / (bodies.length : α)) bodies.length = .ok () →
+        wrapAxisQ explicit ε bodies w =
+          ⟨.ok (bodies.map (·.release)),
+            w.accs.set (resolve w explicit)
+              { a with spent := a.spent ++ List.replicate bodies.length ⟨ε / (bodies.length : α), 0⟩ },
+            (bodies.map (·.calls)).sum⟩) := by
+  constructor
+  · intro x hx
+    simp [wrapAxisQ, cellsQ, getAcc_some w _ a hi, hx]
+  · intro hc
+    have hpass := cells_checks_pass a ε _ bodies.length hmono hmin hc
+    have := runAll_scalar explicit (ε / (bodies.length : α)) bodies w a hi hpass
+    simp only [wrapAxisQ, cellsQ, getAcc_some w _ a hi, hc]
+    rw [this]
+    rfl
+
+/-- ★ model_charge_once: a `fit` whose sub-queries leave the caller's accountants alone (they run on throw-away
+accountants).  Refused by the check: nothing ran, nothing changed.  Otherwise the sub-queries and the body's
+mechanisms run and exactly one spend `(ε, 0)` is appended to the accountant that was resolved when the estimator
+was CONSTRUCTED — whatever the default is at `fit` time; if a sub-query fails nothing is charged. -/
+theorem model_charge_once {σ : Type} (w : World α) (m : Model) (ε : α) (subs : Query α σ) (b : σ → Body ρ)
+    (a : Acc α) (hi : w.accs[m.acc]? = some a) (hframe : (subs w).accs = w.accs) :
+    (∀ x, a.check ε 0 = .error x → fitQ m ε subs b w = ⟨.error x, w.accs, 0⟩) ∧
+    (a.check ε 0 = .ok () → ∀ s, (subs w).res = .ok s →
+        fitQ m ε subs b w = ⟨.ok (b s).release, w.accs.set m.acc { a with spent := a.spent ++ [⟨ε, 0⟩] },
+          (subs w).mechCalls + (b s).calls⟩) ∧
+    (a.check ε 0 = .ok () → ∀ x, (subs w).res = .error x →
+        (fitQ m ε subs b w).res = .error x ∧ (fitQ m ε subs b w).accs = w.accs) := by
+  refine ⟨?_, ?_, ?_⟩
+  · intro x hx
+    simp [fitQ, getAcc_some w _ a hi, hx]
+  · intro hc s hs
+    have hi' : getAcc { w with accs := (subs w).accs } m.acc = .ok a := by
+      rw [hframe]; exact getAcc_some w _ a hi
+    simp only [fitQ, getAcc_some w _ a hi, hc, hs, hi', spend_of_check a ε 0 hc, hframe]
+    rfl
+  · intro hc x hx
+    simp [fitQ, getAcc_some w _ a hi, hc, hx, hframe]
+
+/-- ★ the accountant of an estimator is the explicit one, else the default in force at construction -/
+theorem model_accountant_fixed_at_construction (w₀ : World α) (explicit : Option Nat) :
+    (construct w₀ explicit).acc = explicit.getD w₀.dflt := rfl
+
+/-- ★ a sub-query handed a throw-away accountant charges none of the caller's accountants (scalar sub-query) -/
+theorem throwAway_scalar_frame (fresh : Acc α) (ε : α) (b : Body ρ) (w : World α) :
+    (withThrowAway fresh (fun ex => scalarQ ex ε b) w).accs = w.accs := by
+  unfold withThrowAway
+  simp only
+  apply List.ext_getElem?
+  intro j
+  by_cases hj : j < w.accs.length
+  · rw [List.getElem?_take_of_lt hj]
+    rw [scalarQ_frame _ _ _ _ j (Nat.ne_of_lt hj)]
+    simp [List.getElem?_append_left hj]
+  · have hj' : w.accs.length ≤ j := Nat.le_of_not_lt hj
+    rw [List.getElem?_eq_none (by simp [scalarQ_length]; omega), List.getElem?_eq_none hj']
+
+end generic
+
+/-! ## over ℝ: the arithmetic hypothesis of `multi_cell_charge_gen` is a theorem, and the charge adds up to ε -/
+
+/-- multi_cell_charge over ℝ (any slack): with the up-front `_check_cells` as coded, acceptance implies that every
+per-cell check passes; the `n` recorded spends add up to exactly `ε`; refusal charges nothing and runs nothing.
+Hypotheses: the accountant's slack lies in [0, 1] (an invariant of the constructor and the slack setter) and the
+per-cell epsilon is not below the accountant's `min_epsilon` (= ceiling × 1e-14 in the code). -/
+theorem multi_cell_charge (w : World ℝ) (explicit : Option Nat) (ε : ℝ) {ρ : Type} (bodies : List (Body ρ))
+    (a : Acc ℝ) (hn : 0 < bodies.length) (hi : w.accs[resolve w explicit]? = some a)
+    (hs0 : 0 ≤ a.slack) (hs1 : a.slack ≤ 1)
+    (hmin : ¬ (0 < ε / (bodies.length : ℝ) ∧ ε / (bodies.length : ℝ) < a.minEps)) :
+    (∀ x, checkCells a ε (ε / (bodies.length : ℝ)) bodies.length = .error x →
+        wrapAxisQ explicit ε bodies w = ⟨.error x, w.accs, 0⟩) ∧
+    (checkCells a ε (ε / (bodies.length : ℝ)) bodies.length = .ok () →
+        wrapAxisQ explicit ε bodies w =
+          ⟨.ok (bodies.map (·.release)),
+            w.accs.set (resolve w explicit)
+              { a with spent := a.spent ++ List.replicate bodies.length ⟨ε / (bodies.length : ℝ), 0⟩ },
+            (bodies.map (·.calls)).sum⟩) ∧
+    ((List.replicate bodies.length (⟨ε / (bodies.length : ℝ), 0⟩ : Spend ℝ)).map (·.eps)).sum = ε := by
+  have h := multi_cell_charge_gen w explicit ε bodies a hi (fits_prefix_real a hs0 hs1) hmin
+  refine ⟨h.1, h.2, ?_⟩
+  have hne : (bodies.length : ℝ) ≠ 0 := by exact_mod_cast hn.ne'
+  simp [List.map_replicate, List.sum_replicate]
+  field_simp
+
+/-! ## non-vacuity -/
+
+/-- a finite accountant (ceiling 1) accepts a scalar query of ε = 1/2 and refuses one of ε = 2 -/
+example : (Acc.check (⟨1, 0, 0, 0, []⟩ : Acc ℝ) (1 / 2) 0 = .ok ()) ∧
+    (Acc.check (⟨1, 0, 0, 0, []⟩ : Acc ℝ) 2 0 = .error .budgetError) := by
+  constructor <;>
+  norm_num [Acc.check, checkEpsDelta, feq, Acc.unlimited, totalCore, epsSums, totalDeltaSafe, sortAsc, insertSorted,
+    mkBudget, bind, Except.bind, pure, Except.pure, HasInf.isPosInf, List.forM, List.foldl, throw, throwThe,
+    MonadExceptOf.throw]
+
 end DPL.C09
